@@ -62,21 +62,23 @@ func (fdb *fsDb) Dump(ctx context.Context, key []byte) (*db.Dumper, error) {
 }
 
 func (fdb *fsDb) dumpFunc(ctx context.Context) ([]byte, []byte) {
-	if len(fdb.elements) == 0 {
-		return nil, nil
-	}
-	k := fdb.nextElement()
-	kk, err := fdb.DecodeKey(ctx, k)
-	if err != nil {
-		return nil, nil
-	}
-	kkk := append([]byte{k[0]}, kk...)
-	if bytes.HasPrefix(kkk, fdb.matchPrefix) {
-		vv, err := fdb.Get(ctx, kk)
+	// matching entries need not be adjacent in the directory (encoded binary keys are not
+	// ordered like the keys they encode): skip what does not match instead of ending the
+	// listing at it
+	for len(fdb.elements) > 0 {
+		k := fdb.nextElement()
+		kk, err := fdb.DecodeKey(ctx, k)
 		if err != nil {
-			return nil, nil
+			continue
 		}
-		return kk, vv
+		kkk := append([]byte{k[0]}, kk...)
+		if bytes.HasPrefix(kkk, fdb.matchPrefix) {
+			vv, err := fdb.Get(ctx, kk)
+			if err != nil {
+				return nil, nil
+			}
+			return kk, vv
+		}
 	}
 	return nil, nil
 }
